@@ -62,7 +62,7 @@ def run_mc(ctx, max_n, max_m):
     path = os.path.join(ctx.scratch.path, 'impl_runfilter.json')
     tlc.dump_json(path, tab)
     cfg = tlc.cfg(constants={'MaxN': max_n, 'MaxM': max_m, 'UseImpl': True},
-                  invariants=['InvC08', 'InvDefsAgree', 'InvIdempotent', 'InvMonotoneM', 'InvScan'])
+                  invariants=['InvC08', 'InvDefsAgree', 'InvIdempotent', 'InvMonotoneM', 'InvScan', 'InvRunLength'])
     res = tlc.must(tlc.run('MC_RunFilter', cfg, ctx.scratch, env={'IMPL_FILE': path}, coverage=True, timeout=3000),
                    'MC_RunFilter')
     ctx.add_tlc(res, 'MC_RunFilter(N=%d,M=%d)' % (max_n, max_m))
@@ -101,7 +101,7 @@ def gen_long(rng, n_cases, max_len):
     for k in range(n_cases):
         n = int(rng.integers(1, max_len + 1))
         m = int(rng.integers(0, 9))
-        style = k % 4
+        style = k % 5
         b = np.zeros(n, dtype=bool)
         i = 0
         val = bool(rng.integers(0, 2))
@@ -112,6 +112,8 @@ def gen_long(rng, n_cases, max_len):
                 L = int(max(1, m + rng.integers(-1, 2)))          # runs of length m-1, m, m+1
             elif style == 2:
                 L = int(rng.geometric(0.3))
+            elif style == 4:      # bursts of hundreds of cycles (run lengths around 2^7 and 2^8) between short gaps
+                L = int(rng.choice([126, 127, 128, 129, 200, 255, 256, 257, 300])) if val else int(rng.integers(1, 4))
             else:
                 L = int(rng.integers(1, 40))
             b[i:i + L] = val
@@ -119,6 +121,19 @@ def gen_long(rng, n_cases, max_len):
             val = not val
         cases.append((b, m))
     return cases
+
+
+def rle_record(rle, m):
+    """One call on an array given in run-length coding (too long to log element by element): TRUE elements of the output inside each input run."""
+    from bycycle.burst.utils import check_min_burst_cycles
+    b = np.concatenate([np.full(L, v, dtype=bool) for v, L in rle])
+    o = np.asarray(check_min_burst_cycles(b.copy(), min_n_cycles=m), dtype=bool)
+    o2 = np.asarray(check_min_burst_cycles(o.copy(), min_n_cycles=m), dtype=bool)
+    edges = np.cumsum([0] + [L for _, L in rle])
+
+    def per_run(x):
+        return [int(np.count_nonzero(x[edges[k]:edges[k + 1]])) if len(x) >= edges[k + 1] else -1 for k in range(len(rle))]
+    return {'rle': [[bool(v), int(L)] for v, L in rle], 'm': int(m), 'n_out': int(len(o)), 'kept': per_run(o), 'kept2': per_run(o2), 'b': [], 'out': [], 'out2': []}
 
 
 def run_tv(ctx, n_cases, max_len):
@@ -133,6 +148,21 @@ def run_tv(ctx, n_cases, max_len):
         except Exception as e:
             ctx.violation('C08.raises', 'check_min_burst_cycles raised %s for len %d, m=%d' % (type(e).__name__, len(b), m),
                           {'kind': 'tv', 'b': [bool(x) for x in b], 'm': m})
+    # run-length coded giants: arrays of 10^5 elements with runs around 2^15 and 2^16 (16-bit run lengths / indices), judged per run
+    giants = 0
+    for g in range(max(3, n_cases // 100)):
+        m = int(rng.choice([0, 3, 5, 40000]))
+        val, rle = bool(rng.integers(0, 2)), []
+        for _ in range(int(rng.integers(3, 9))):
+            L = int(rng.choice([1, 2, m or 1, 32767, 32768, 32769, 65535, 65536, 65537, 40000])) if val else int(rng.choice([1, 2, 7, 33000]))
+            rle.append([val, L])
+            val = not val
+        try:
+            recs.append(rle_record(rle, m))
+            giants += 1
+        except Exception as e:
+            ctx.violation('C08.raises', 'check_min_burst_cycles raised %s for a run-length coded array %s, m=%d' % (type(e).__name__, rle, m), {'kind': 'rle', 'rle': rle, 'm': m})
+    ctx.parts.append({'part': 'run_length_coded_giants', 'cases': giants})
     path = os.path.join(ctx.scratch.path, 'trace_runfilter.json')
     tlc.dump_json(path, recs)
     res = tlc.must(tlc.run('Trace_RunFilter', tlc.cfg(), ctx.scratch, env={'TRACE_FILE': path}, workers=8, timeout=1800),
@@ -143,9 +173,12 @@ def run_tv(ctx, n_cases, max_len):
         raise tlc.TLCError('Trace_RunFilter: %d verdicts for %d cases' % (len(verdicts), len(recs)))
     for tid, fails in verdicts.items():
         r = recs[tid - 1]
-        if r['b'] != r['out']:
+        if r['b'] != r['out'] or 'rle' in r:
             nontriv += 1
         for f in fails:
+            if 'rle' in r:
+                ctx.violation(f, 'recorded call on a run-length coded array %s with min_n_cycles=%d: TRUE elements per run %s' % (r['rle'], r['m'], r['kept']), {'kind': 'rle', 'rle': r['rle'], 'm': r['m']})
+                continue
             ctx.violation(f, 'recorded call on an array of length %d with min_n_cycles=%d' % (len(r['b']), r['m']),
                           {'kind': 'tv', 'b': r['b'], 'm': r['m']})
     ctx.traces += len(recs)
@@ -175,10 +208,13 @@ def run(ctx):
 def replay(ctx, case):
     from bycycle.burst.utils import check_min_burst_cycles
     c = case['case']
-    b = np.array(c['b'], dtype=bool)
-    o = check_min_burst_cycles(b.copy(), min_n_cycles=c['m'])
-    o2 = check_min_burst_cycles(np.array(o).copy(), min_n_cycles=c['m'])
-    recs = [{'b': [bool(x) for x in b], 'm': c['m'], 'out': [bool(x) for x in o], 'out2': [bool(x) for x in o2]}]
+    if c.get('kind') == 'rle':
+        recs = [rle_record(c['rle'], c['m'])]
+    else:
+        b = np.array(c['b'], dtype=bool)
+        o = check_min_burst_cycles(b.copy(), min_n_cycles=c['m'])
+        o2 = check_min_burst_cycles(np.array(o).copy(), min_n_cycles=c['m'])
+        recs = [{'b': [bool(x) for x in b], 'm': c['m'], 'out': [bool(x) for x in o], 'out2': [bool(x) for x in o2]}]
     path = os.path.join(ctx.scratch.path, 'trace_runfilter.json')
     tlc.dump_json(path, recs)
     res = tlc.must(tlc.run('Trace_RunFilter', tlc.cfg(), ctx.scratch, env={'TRACE_FILE': path}, workers=1))
